@@ -98,3 +98,13 @@ func init() {
 		Assume: schedAssume,
 	}
 }
+
+func init() {
+	cfgs["C19"] = checkCfg{
+		Variant: "sched", Validate: true,
+		Stride: map[string]int{"quick": 200, "thorough": 200},
+		Budget: dur(170, 1700),
+		Rule:   "every program of the shared semantic families (quick: every 4th of the three largest families, all of the others; thorough: all) plus 19 printer-centric programs (every string escape, pub items, event functions, singletons, match defaults, any-object literals, float literals, nested blocks, string keys, complex types, precedence/grouping, casts, ranges, loops, closures, try/catch, spawn, options, compound assignments): Program.String() and AnalyzedProgram.String() must re-parse, be accepted, behave identically on the VM and be a fixed point after one round; optimizer.Optimize output must behave identically on VM and interpreter; distinct = distinct original VM observation records",
+		Assume: schedAssume,
+	}
+}
